@@ -4,6 +4,9 @@
    the witness is replayed against the real service by the harness (corpus/C10). *)
 From Verif Require Import Life.Classify Life.ClassifyProofs Life.Backoff Life.BackoffProofs
                           Life.RunMap Life.Witness Life.Accept Life.AcceptProofs.
+From Verif Require Err.Tree.
+From Verif Require Import Life.Fanout Life.FanoutProofs Life.Mon Life.Check Life.FanoutTie.
+From Coq Require Import Permutation.
 Local Open Scope Z_scope.
 
 (* ---------------- fatal_degrades_no_restart ---------------- *)
@@ -234,6 +237,82 @@ Proof.
   rewrite (E ch), (E 0%nat). reflexivity.
 Qed.
 Print Assumptions C10_first_reason_decides_at_cleanup.
+
+(* ---------------- fan-out (arch-v2, M destinations): the error of a batch pass ---------------- *)
+
+(* funnel.Worker.doNextTask joins the branch errors: the pass's error is fatal iff the error of SOME branch is,
+   for any number of branches ... *)
+Theorem C10_fanout_fatal_iff_any : forall done,
+  Tree.is_fatalo (do_next_task JoinAll done) = existsb Tree.is_fatalo done.
+Proof. exact fanout_fatal_iff_any. Qed.
+Print Assumptions C10_fanout_fatal_iff_any.
+
+(* ... and in whatever order the branches finished *)
+Theorem C10_fanout_order_irrelevant : forall done done',
+  Permutation done done' ->
+  reason_of_oerr (do_next_task JoinAll done) = reason_of_oerr (do_next_task JoinAll done').
+Proof. exact fanout_order_irrelevant. Qed.
+Print Assumptions C10_fanout_order_irrelevant.
+
+(* a fatal cause on ANY branch: the run ends Degraded with the cause recorded and never enters recovery, whatever the
+   sibling branches returned (transient errors included), whichever failed first, whatever reaches the tomb after the
+   worker's error, whatever the stop flags *)
+Theorem C10_fanout_fatal_degrades_no_restart_v2 : forall done later f rec,
+  existsb Tree.is_fatalo done = true ->
+  let r := tomb_err (kills (reason_of_oerr (do_next_task JoinAll done) :: later)) in
+  decide v2_arms r f rec = Final Degraded TFatal /\ enters_recovery v2_arms r f = false.
+Proof. exact (fun done later f rec => fanout_fatal_degrades_no_restart v2_arms done later f rec v2_fatal_first). Qed.
+Print Assumptions C10_fanout_fatal_degrades_no_restart_v2.
+
+(* the worker goroutine Kills with Do's error before the teardown's: a fatal member keeps the tomb fatal *)
+Theorem C10_fanout_worker_kills_fatal : forall done closeErr,
+  existsb Tree.is_fatalo done = true ->
+  tomb_err (kills (worker_kills (do_next_task JoinAll done) closeErr)) = RFatal.
+Proof. exact worker_fatal_pass_kills_fatal. Qed.
+Print Assumptions C10_fanout_worker_kills_fatal.
+
+(* only transient branch errors: the pass's error is transient and is recovered *)
+Theorem C10_fanout_transient_recovers_v2 : forall done,
+  existsb Tree.is_fatalo done = false -> existsb Tree.is_some done = true ->
+  reason_of_oerr (do_next_task JoinAll done) = RTransient
+  /\ enters_recovery v2_arms (reason_of_oerr (do_next_task JoinAll done)) (mkFlags false false) = true.
+Proof. exact (fun done => fanout_transient_recovers v2_arms done eq_refl). Qed.
+Print Assumptions C10_fanout_transient_recovers_v2.
+
+(* a pool that reports the FIRST branch error only (.WithFirstError()) drops the fatal marker of a branch that fails
+   after a transient sibling: the run is restarted; joined, the same results degrade; with the fatal branch
+   first the defect is invisible *)
+Theorem C10_fanout_first_error_refuted :
+  existsb Tree.is_fatalo w_transient_then_fatal = true
+  /\ reason_of_oerr (do_next_task FirstError w_transient_then_fatal) = RTransient
+  /\ enters_recovery v2_arms (reason_of_oerr (do_next_task FirstError w_transient_then_fatal)) (mkFlags false false) = true
+  /\ decide v2_arms (reason_of_oerr (do_next_task FirstError w_transient_then_fatal)) (mkFlags false false) RecRestarted = Restart
+  /\ decide v2_arms (reason_of_oerr (do_next_task JoinAll w_transient_then_fatal)) (mkFlags false false) RecRestarted = Final Degraded TFatal
+  /\ reason_of_oerr (do_next_task FirstError (rev w_transient_then_fatal)) = RFatal.
+Proof. exact fanout_first_error_refuted. Qed.
+Print Assumptions C10_fanout_first_error_refuted.
+
+(* the checker's join: for the failures [ms] of one pass (the property's vocabulary) the model's acceptor is handed
+   a fatal cause iff a member is one of the property's fatal causes, and the monitor classifies the join the same way *)
+Theorem C10_joined_classes_agree : forall cf ms, ms <> [] ->
+  engine_cause cf ms = Some (if existsb property_fatal ms then CaFatal else CaTransient)
+  /\ pcause_fatal (pcause_join ms) = existsb property_fatal ms.
+Proof. exact (fun cf ms H => conj (engine_cause_join cf ms H) (pcause_join_fatal_iff_any ms)). Qed.
+Print Assumptions C10_joined_classes_agree.
+
+Theorem C10_joined_fatal_degrades_no_restart : forall e ms later f rec,
+  existsb property_fatal ms = true ->
+  let r := tomb_err (kills (join_reason (map (engine_tag e true) ms) :: later)) in
+  decide (arms_of e) r f rec = Final Degraded TFatal /\ enters_recovery (arms_of e) r f = false.
+Proof. exact joined_fatal_degrades_no_restart. Qed.
+Print Assumptions C10_joined_fatal_degrades_no_restart.
+
+Example C10_nonvacuous_fanout :
+  reason_of_oerr (do_next_task JoinAll [Some (Tree.Leaf 0%nat); None; Some (Tree.Wrap (Tree.FatalN (Tree.Leaf 0%nat)))]) = RFatal
+  /\ reason_of_oerr (do_next_task JoinAll [Some (Tree.Leaf 0%nat); None]) = RTransient
+  /\ reason_of_oerr (do_next_task JoinAll [None; None]) = RNil
+  /\ pcause_join [FDstWrite; FDlqWriteAfterDst] = PFatalDlqWrite /\ mixed_join [FDstWrite; FDlqWriteAfterDst] = true.
+Proof. vm_compute. repeat split; reflexivity. Qed.
 
 (* ---------------- tie to the observed behaviour ---------------- *)
 (* the trace acceptor is sound: every event log of the real service that the check accepts is the observable
